@@ -2,6 +2,13 @@
 
 # pid -> dict(category, text, note, technique, design_ref)
 CLAIMED = {
+    "C03": dict(
+        category="proof",
+        technique="Lean 4 induction over an adversarial read-size oracle (model of AssociationSocket.recv + _read_pdu_data framing) + differential run over real socketpairs with recorded read results",
+        text="Kernel-checked for every PDU sequence, every truncated tail and every sequence of read sizes the kernel may return: the receive loop returns exactly the requested bytes, the reactor sees exactly the PDUs sent, in order, then 'closed' (C03_chunking_midclose), and for ANY oracle including timeouts every delivered PDU is completely framed and the frames account for a prefix of the stream (C03_frames_sound). The model is tied to the code by running the real AssociationSocket.recv/_read_pdu_data over socket.socketpair() with generated sender chunking, gaps, close offsets and per-read caps, feeding the recorded read results to the Lean driver and diffing the frame sequences; the property oracle is evaluated on the real side alone.",
+        note="Trusted: Lean kernel; the proxy socket that caps/records reads; kernel/TCP behaviour enters only through the read-result sequence the theorem quantifies over. Gaps are below the socket timeout by construction (blocking reads do not observe them). PDU decoding after framing is C01/C02.",
+        design_ref="§5 C03",
+    ),
     "C04": dict(
         category="proof",
         technique="Lean 4 whole-table theorems (decide +kernel) over the transition table and the executed effect traces of all 988 do_action inputs, regenerated from fsm.py every run, against a hand transcription of PS3.8 Tables 9-6..9-10",
